@@ -264,9 +264,17 @@ func init() {
 			}
 			cst, err := c08CPU(o, rows, wd, *f.repo)
 			if err != nil {
-				return err
+				// the functions around the real Load/Store could not be generated, built or run: that is itself
+				// evidence (e.g. Load emitting an instruction the assembler rejects), reported as a failing acceptor
+				msg := err.Error()
+				if len(msg) > 600 {
+					msg = msg[:600]
+				}
+				o.emit("accept-cpu-run "+c06Hex(msg), "ok")
+				stats["cpu"] = map[string]any{"failed": msg}
+			} else {
+				stats["cpu"] = cst
 			}
-			stats["cpu"] = cst
 		}
 		return writeJSON(*f.stats, stats)
 	})
